@@ -115,9 +115,13 @@ package ggql
 //@   requires recv != nil
 
 //@ func (*FieldDef).getArg
-//@   props C03
+//@   props C03 C04
 //@   check panic {C03}
 //@   requires recv != nil
+//@   results a
+//@   ensures[lookup] recv.args.dict != nil ==> a == recv.args.dict[name]
+//@   ensures[empty] recv.args.dict == nil ==> a == nil
+//@   assigns nothing
 
 //@ func newFloat64Scalar
 //@   props C03
@@ -281,9 +285,10 @@ package ggql
 //@   requires recv != nil
 
 //@ func (*List).Validate
-//@   props C03
+//@   props C03 C13
 //@   check panic {C03}
 //@   requires recv != nil
+//@   use validDefList(recv)
 
 //@ func (*NonNull).Rank
 //@   props C03
@@ -342,9 +347,10 @@ package ggql
 //@   requires recv != nil
 
 //@ func (*NonNull).Validate
-//@   props C03
+//@   props C03 C13
 //@   check panic {C03}
 //@   requires recv != nil
+//@   use validDefNonNull(recv)
 
 //@ func (*Object).Rank
 //@   props C03
